@@ -759,7 +759,7 @@ class QuicConnection:
         payload_length = len(data)
 
         # stop handling packets when closing
-        if self._state in END_STATES:
+        if self._state in END_STATES or self._close_pending:
             return
 
         # log datagram
